@@ -1051,7 +1051,13 @@ class Interp(Folder):
             self.err(target, "attribute assignment on unsupported value")
         if isinstance(target, ast.Subscript):
             c = self.ev(target.value, env)
-            k = self.ev(target.slice, env)
+            if isinstance(target.slice, ast.Slice):
+                lo = self.ev(target.slice.lower, env) if target.slice.lower else None
+                hi = self.ev(target.slice.upper, env) if target.slice.upper else None
+                k = slice(lo, hi)
+                value = list(self.iterate(value))
+            else:
+                k = self.ev(target.slice, env)
             _py(lambda: c.__setitem__(k, value))
             return
         if isinstance(target, ast.Name):
@@ -1248,7 +1254,12 @@ class Interp(Folder):
             for t in st.targets:
                 if isinstance(t, ast.Subscript):
                     c = self.ev(t.value, env)
-                    k = self.ev(t.slice, env)
+                    if isinstance(t.slice, ast.Slice):
+                        lo = self.ev(t.slice.lower, env) if t.slice.lower else None
+                        hi = self.ev(t.slice.upper, env) if t.slice.upper else None
+                        k = slice(lo, hi)
+                    else:
+                        k = self.ev(t.slice, env)
                     _py(lambda: c.__delitem__(k))
                 elif isinstance(t, ast.Name):
                     env.pop(t.id, None)
